@@ -5,7 +5,7 @@
    so the machines' treatment of empty outputs, of the finish chunk and of the end is exercised
    without shipping compressed bytes to Coq. *)
 From Coq Require Import String.
-From AV Require Import Lib.Base Lib.V Gen.Consts Web.ContentCoding Web.Negotiate.
+From AV Require Import Lib.Base Lib.V Gen.Consts Web.ContentCoding Web.Negotiate Web.ContentCodingSelect.
 Open Scope N_scope.
 
 (* ---- scripted encoder: state = (outputs of the takes still to come, output of finish) *)
@@ -26,7 +26,7 @@ Definition sd_feed (d : SD) (_ : bytes) : option (bytes * SD) :=
 Definition sd_eof (d : SD) : option bytes := snd d.
 
 Definition e_poll := enc_poll SE se_write se_take se_finish ENC_MAX_CHUNK_SIZE_ENCODE_IN_PLACE.
-Definition e_drive := enc_drive SE se_write se_take se_finish ENC_MAX_CHUNK_SIZE_ENCODE_IN_PLACE.
+Definition e_drive := enc_drive_obs SE se_write se_take se_finish ENC_MAX_CHUNK_SIZE_ENCODE_IN_PLACE.
 Definition d_poll := dec_poll SD sd_feed sd_eof DEC_MAX_CHUNK_SIZE_DECODE_IN_PLACE.
 Definition d_drive := dec_drive SD sd_feed sd_eof DEC_MAX_CHUNK_SIZE_DECODE_IN_PLACE.
 
@@ -40,13 +40,15 @@ Inductive case :=
 (* Compress middleware + Encoder: parsed Accept-Encoding (None: header absent / unparsable),
    compressible content type, status, handler-set Content-Encoding, handler Vary values, the
    handler's NO_CHUNKING flag and Content-Length header (`.no_chunking(len)` sets both), body size,
-   body chunks, scripted takes (one per body chunk) and finish *)
+   body chunks, scripted takes (one per body chunk) and finish; [after] = how many times the consumer
+   polls again after the end (0 when the handler's body does not tolerate polls after its end) *)
 | CResp (ae : option (list qitem)) (compressible : bool) (status : N) (ce : option bytes)
         (vary : list bytes) (no_chunking : bool) (cl : option bytes) (size : bsize) (body : list bchunk) (takes : list bytes) (finish : bytes)
-        (oracle : list bool)
-(* request Decoder: has a decoder (supported Content-Encoding) or not, wire chunks, scripted feed
+        (oracle : list bool) (after : nat)
+(* request Decoder: the values of the request's Content-Encoding fields (Decoder::from_headers
+   decides whether there is a decoder), wire chunks, scripted feed
    results (one per wire chunk; None = io error) and feed_eof result *)
-| CDec (has_decoder : bool) (wire : list bchunk) (feeds : list (option bytes)) (eof : option bytes)
+| CDec (ce_values : list bytes) (wire : list bchunk) (feeds : list (option bytes)) (eof : option bytes)
        (oracle : list bool)
 (* negotiation alone *)
 | CNeg (h : list qitem).
@@ -83,7 +85,7 @@ Fixpoint d_after (n : nat) (s : dec_st SD) : list V :=
 
 Definition run_C13 (c : case) : V :=
   match c with
-  | CResp ae compressible status ce vary nochunk cl size body takes finish o =>
+  | CResp ae compressible status ce vary nochunk cl size body takes finish o n_after =>
       let h := {| h_status := status; h_content_encoding := ce; h_vary := vary; h_no_chunking := nochunk;
                   h_content_length := cl |} in
       match compress ae compressible h size with
@@ -99,10 +101,14 @@ Definition run_C13 (c : case) : V :=
                     | BNone | BEmpty => {| e_body := []; e_encoder := None; e_fut := None; e_eof := true |}
                     | _ => enc_init SE enc chunks
                     end in
-          let '(outs, sf, fin) := e_drive (enc_budget chunks o) s0 o in
-          VT "resp" [VHead h'; VSize sz; VL (map VTok outs); VBool fin; VL (e_after 3 sf)]
+          (* [nones]: how often the handler's body answered None up to the answer's end; every one
+             after the first is a poll of the body after its end *)
+          let '(outs, sf, fin, nones) := e_drive (enc_budget chunks o) s0 o in
+          VT "resp" [VHead h'; VSize sz; VL (map VTok outs); VBool fin; VL (e_after n_after sf);
+                     VN (N.of_nat (Nat.pred nones))]
       end
-  | CDec has wire feeds eof o =>
+  | CDec values wire feeds eof o =>
+      let has := decoder_new_has (decoder_from_headers values) in
       let chunks := if has then map bc_sized wire else map bc_token wire in
       let s0 := dec_init SD (if has then Some (feeds, eof) else None) chunks in
       let '(outs, sf, fin) := d_drive (dec_budget chunks o) s0 o in
